@@ -1,8 +1,68 @@
-import Magog.Model.Eval
-import Magog.Model.Time
+import Magog.Model.Search
 
-/-! Property C18 — theorems (see DESIGN §5). -/
+/-! Property C18 — fixed capacities are never exhausted. Inequalities between the *regenerated*
+    constants, and totality of the killer-table access for every ply value. -/
 
 namespace Magog.Props.C18
+open Magog Magog.Model
+
+/-- upper bound of 2·pawns + otherPieces summed over both sides in any position the FEN loader accepts
+    (≤ 8 pawns and pawns + others ≤ pieceCap per side); every capture or promotion lowers it -/
+def maxTacticalDepth : Nat := 2 * (Gen.pawnCap + Gen.pieceCap)
+
+/-- the PV table has a row for every index a search of nominal depth ≤ MaxSearchDepth can touch:
+    a node at depth d reads row d+1 and the deepest node is a quiescence node at
+    MaxSearchDepth + maxTacticalDepth -/
+theorem pv_rows_suffice : Gen.MaxSearchDepth + maxTacticalDepth + 1 < Gen.pvRows.toNat := by decide
+
+theorem quiescence_bound_is_source_constant : Gen.maxQuiescenceDepth = maxTacticalDepth := by decide
+
+/-- the position stack has a slot for every ply of the deepest search -/
+theorem stack_suffices : Gen.MaxSearchDepth + maxTacticalDepth + 1 < Gen.plyBufferCapacity := by decide
+
+/-- every ply value (any `int16`, also after wrap-around) maps to a valid killer slot -/
+theorem killer_index_ok (ply : Int) : killerIdx ply < Gen.killerMovesMaxPly := by
+  unfold killerIdx
+  exact Nat.mod_lt _ (by decide)
+
+/-- reading the killer table never panics, for any table of the allocated size -/
+theorem killerSlot_total (kt : Killers) (hk : kt.size = Gen.killerMovesMaxPly) (ply : Int) :
+    ∃ k, killerSlot kt ply = .ok k := by
+  unfold killerSlot
+  have h := killer_index_ok ply
+  have : killerIdx ply < kt.size := by omega
+  rw [Array.getElem?_eq_getElem this]
+  exact ⟨_, rfl⟩
+
+/-- updating it never panics either and keeps the size -/
+theorem updateKillers_total (kt : Killers) (hk : kt.size = Gen.killerMovesMaxPly) (ply : Int) (mv : Move) :
+    ∃ kt', updateKillers kt ply mv = .ok kt' ∧ kt'.size = Gen.killerMovesMaxPly := by
+  obtain ⟨k, hk'⟩ := killerSlot_total kt hk ply
+  refine ⟨kt.setIfInBounds (killerIdx ply) (mv, k.1), ?_, by simp [hk]⟩
+  simp [updateKillers, hk', bind, Except.bind, pure, Except.pure]
+
+theorem killers_empty_size : Killers.empty.size = Gen.killerMovesMaxPly := by simp [Killers.empty]
+
+/-- the ply counter cannot wrap: from any accepted move number (≤ maxFullMoveCounter) a game may go on
+    for 12 000 more plies and a search 100 plies deeper without leaving int16 -/
+theorem ply_no_wrap (n extra : Int) (hn : 1 ≤ n ∧ n ≤ Gen.maxFullMoveCounter) (he : 0 ≤ extra ∧ extra ≤ 12100) :
+    wrap16 ((n - 1) * 2 + 1 + extra) = (n - 1) * 2 + 1 + extra := by
+  simp only [Gen.maxFullMoveCounter] at hn
+  unfold wrap16; omega
+
+/-- `go depth N` is capped at MaxSearchDepth by the token scanner, whatever N -/
+theorem depth_capped (s : Bytes) (rest : List Bytes) (a : GoAcc) (v : Int) (hs : atoi s = some v) (hv : 1 ≤ v) :
+    goScan (kwDepth :: s :: rest) a = goScan (s :: rest) { a with depth := min v Gen.MaxSearchDepth } := by
+  rw [goScan]
+  have h1 : (kwDepth == kwMoveTime) = false := by decide
+  have h2 : (kwDepth == kwInfinite) = false := by decide
+  have h3 : (kwDepth == kwWtime) = false := by decide
+  have h4 : (kwDepth == kwBtime) = false := by decide
+  have h5 : (kwDepth == kwWinc) = false := by decide
+  have h6 : (kwDepth == kwBinc) = false := by decide
+  have h7 : (kwDepth == kwMovesToGo) = false := by decide
+  have hlt : ¬ v < 1 := by omega
+  simp only [h1, h2, h3, h4, h5, h6, h7, beq_self_eq_true, Bool.false_eq_true, ↓reduceIte, bind, Except.bind, pure,
+    Except.pure, hs, hlt]
 
 end Magog.Props.C18
